@@ -93,20 +93,64 @@ def score(b):
     return (2 if interesting(b) else 0) + len(kinds) / 10.0 + min(len(steps), 10) / 20.0
 
 
-def features(b):
-    """Abstract shape of a behaviour: 1/2/3-grams of (action, option tuple it concerns), per idle mode.
-    Used to pick a sample in which every local pattern the generator produced occurs at least once."""
+def tokens(b):
+    """Abstract each step by what it means at that point (approximate replay of the schedule): who is cancelled in which
+    phase (before the call / dialler or waiter while the upgrade or the ack is outstanding / subscribed), whether a call
+    dials, joins a dial or re-uses a connection, whether a frame is addressed to a live or a cancelled subscription."""
+    key, dialler = b["key"], b.get("dialler") or []
+    conns = []  # [key, state, members]
+    called, cancelled, conn_of = set(), set(), {}
     toks = []
-    for s in b["steps"]:
-        if s["a"] in ("Call", "Cancel", "Send"):
-            k = b["key"][s["s"] - 1]
-        elif s["c"]:
-            d = b["dialler"][s["c"] - 1]
-            k = b["key"][d - 1] if d else 0
+    for st in b["steps"]:
+        a, s_, c_ = st["a"], st["s"], st["c"]
+        if a == "Call":
+            called.add(s_)
+            nxt = len(conns)
+            if nxt < len(dialler) and dialler[nxt] == s_:
+                conns.append([key[s_ - 1], "gate_up" if s_ not in cancelled else "dead", {s_}])
+                conn_of[s_] = nxt
+                toks.append("Call:dial" + (":precancelled" if s_ in cancelled else ""))
+            else:
+                cand = [i for i, c in enumerate(conns) if c[0] == key[s_ - 1] and c[1] != "dead"]
+                if cand:
+                    i = cand[-1]
+                    conns[i][2].add(s_)
+                    conn_of[s_] = i
+                    toks.append(("Call:join:" if conns[i][1] != "open" else "Call:reuse:") + conns[i][1]
+                                + (":precancelled" if s_ in cancelled else ""))
+                else:
+                    toks.append("Call:other")
+        elif a == "Cancel":
+            if s_ not in called:
+                toks.append("Cancel:pre")
+            elif s_ in conn_of:
+                i = conn_of[s_]
+                role = "dialler" if i < len(dialler) and dialler[i] == s_ else "joiner"
+                others = len([m for m in conns[i][2] if m not in cancelled and m != s_])
+                toks.append("Cancel:%s:%s:%d" % (role, conns[i][1], min(others, 2)))
+            else:
+                toks.append("Cancel:other")
+            cancelled.add(s_)
+        elif a in ("Upgrade", "Ack", "Reject", "InitFail", "Close"):
+            i = c_ - 1
+            n = len([m for m in conns[i][2] if m not in cancelled]) if 0 <= i < len(conns) else 0
+            if 0 <= i < len(conns):
+                conns[i][1] = {"Upgrade": "gate_ack", "Ack": "open"}.get(a, "dead")
+            toks.append("%s:%d" % (a, min(n, 2)))
+        elif a == "Send":
+            toks.append("Send-%s:%s" % (st["k"], "late" if s_ in cancelled else "live"))
         else:
-            k = 0
-        toks.append("%s%s:%d" % (s["a"], ("-" + s["k"]) if s["k"] else "", k))
+            toks.append(a)
+    return toks
+
+
+def features(b):
+    """Shape of a behaviour: outcome the specification predicts per subscriber, and 1/2/3-grams of its abstract steps
+    (per idle mode).  Used to pick a sample in which every outcome and local pattern the generator produced occurs."""
+    toks = tokens(b)
     out = set()
+    for e in b.get("exp") or []:
+        out.add(("out", b["idle"], e.get("pc"), e.get("err"), e.get("blame"), min(len(e.get("h") or []), 2)))
     for n in (1, 2, 3):
         for i in range(len(toks) - n + 1):
             out.add((b["idle"],) + tuple(toks[i:i + n]))
@@ -119,9 +163,17 @@ def select(beh, cap, rng):
     order = list(beh)
     rng.shuffle(order)
     feats = [features(b) for b in order]
-    heap = [(-len(f), i) for i, f in enumerate(feats)]
-    heapq.heapify(heap)
     seen, picked = set(), []
+    # phase 1: every predicted outcome (who ends how, blamed on what) at least once
+    for i, f in enumerate(feats):
+        o = {x for x in f if x[0] == "out"}
+        if not o <= seen and len(picked) < cap // 4:
+            seen |= f
+            picked.append(i)
+    # phase 2: local patterns
+    done = set(picked)
+    heap = [(-len(f - seen), i) for i, f in enumerate(feats) if i not in done]
+    heapq.heapify(heap)
     while heap and len(picked) < cap * 3 // 4:
         g, i = heapq.heappop(heap)
         gain = len(feats[i] - seen)
@@ -352,7 +404,7 @@ def _run(ctx):
         jobs["neg-" + inv] = pool.submit(mc, ctx, "neg-" + inv, 2, 2, 1, 2, False, [inv], count=False, workers=2, timeout=600)
     jobs["gen2"] = pool.submit(ctx.tlc, "conc", "Gen_WSMux", "Gen_WSMux_2.cfg", timeout=1200, deadlock=False, workers=4, tag="gen-2")
     jobs["gen3"] = pool.submit(ctx.tlc, "conc", "Gen_WSMux", "Gen_WSMux_3.cfg", timeout=1700, deadlock=False, workers=1,
-                               simulate=1200 if quick else 60000, depth=120, seed=ctx.seed, tag="gen-3-simulate")
+                               simulate=1200 if quick else 40000, depth=120, seed=ctx.seed, tag="gen-3-simulate")
     jobs["mcsse"] = pool.submit(ctx.tlc, "conc", "MC_SSEMux", "MC_SSEMux_2.cfg", timeout=900, deadlock=False, workers=2, tag="mc-sse-2")
     jobs["gensse"] = pool.submit(ctx.tlc, "conc", "Gen_SSEMux", "Gen_SSEMux_2.cfg", timeout=900, deadlock=False, workers=2, tag="gen-sse-2")
     if not quick:
@@ -375,7 +427,7 @@ def _run(ctx):
     beh = sorted(uniq.values(), key=lambda b: lib.sha(b))
     rng.shuffle(beh)
     n_int = sum(1 for b in beh if interesting(b))
-    chosen, npat = select(beh, 500 if quick else 20000, rng)
+    chosen, npat = select(beh, 500 if quick else 12000, rng)
     ctx.log("generated %d distinct behaviours (%d interesting: >= 2 subscribers of one key + a cancel/frame/fault); %d chosen "
             "covering %d local patterns" % (len(beh), n_int, len(chosen), npat))
     scheds = [to_schedule(i, b, rng) for i, b in enumerate(chosen)]
@@ -389,7 +441,7 @@ def _run(ctx):
             usse.setdefault(lib.sha([len(b["key"]), b["steps"]]), b)
     bsse = sorted(usse.values(), key=lambda b: lib.sha(b))
     rng.shuffle(bsse)
-    csse, npat_sse = select(bsse, 80 if quick else 3000, rng)
+    csse, npat_sse = select(bsse, 80 if quick else 2000, rng)
     for b in csse:
         b["key"] = [rng.choice([1, 2]) for _ in b["key"]]  # SSE never shares: the option tuple only selects endpoint / headers
     sse = [to_schedule(i, b, rng, mode="sse") for i, b in enumerate(csse)]
